@@ -484,6 +484,7 @@ class DoIPConnection:
             context=set_task_handler_ctx_variable(__name__, "DoipReader"),
         )
         self._is_closed = False
+        self._peer_closed = False
         self._mutex = asyncio.Lock()
 
     @classmethod
@@ -564,8 +565,10 @@ class DoIPConnection:
             logger.debug("DoIP read worker got cancelled")
         except asyncio.IncompleteReadError as e:
             logger.debug(f"DoIP read worker received EOF: {e!r}")
+            self._peer_closed = True
         except Exception as e:
             logger.info(f"DoIP read worker died with {e!r}")
+            self._peer_closed = True
         finally:
             logger.debug("Feeding EOF to reader and requesting a close")
             self.reader.feed_eof()
@@ -576,7 +579,8 @@ class DoIPConnection:
     async def read_frame_unsafe(self) -> DoIPFrame:
         # Avoid waiting on the queue forever when
         # the connection has been terminated.
-        if self._is_closed:
+        # Frames which arrived before the peer terminated the connection are still delivered.
+        if self._is_closed and not (self._peer_closed and not self._read_queue.empty()):
             raise ConnectionError
         frame = await self._read_queue.get()
         if frame is None:
